@@ -628,3 +628,56 @@ func (c *Ctx) goldenMarshalSites(fn *ssa.Function, epbPkg string) []marshalSite 
 	}
 	return out
 }
+
+// workspaceCell makes "the ChangeOps field of a struct of package endorse" a tracked cell (flag idx) of an ESP rule:
+// an attempt record that keeps its workspace in a field (attempt.cops) is followed through its methods as the local
+// variable it replaces was. One cell for all such objects: the rules that use it look at one attempt at a time.
+func workspaceCell(r *esp.Rule, idx int) {
+	endorsePkg := repoPath("endorse")
+	isWSField := func(fa *ssa.FieldAddr) bool {
+		pt, ok := fa.X.Type().Underlying().(*types.Pointer)
+		if !ok {
+			return false
+		}
+		n, ok := pt.Elem().(*types.Named)
+		if !ok || n.Obj().Pkg() == nil || n.Obj().Pkg().Path() != endorsePkg || n.Obj().Name() == "Context" {
+			return false
+		}
+		st, ok := n.Underlying().(*types.Struct)
+		return ok && fa.Field < st.NumFields() && namedIs(st.Field(fa.Field).Type(), endorsePkg, "ChangeOps")
+	}
+	prevFlag := r.Flag
+	r.Flag = func(v ssa.Value) (int, bool) {
+		if u, ok := v.(*ssa.UnOp); ok && u.Op == token.MUL {
+			if fa, ok := u.X.(*ssa.FieldAddr); ok && isWSField(fa) {
+				return idx, true
+			}
+		}
+		if prevFlag != nil {
+			return prevFlag(v)
+		}
+		return 0, false
+	}
+	r.FieldFlag = func(fa *ssa.FieldAddr) (int, bool) {
+		if isWSField(fa) {
+			return idx, true
+		}
+		return 0, false
+	}
+	r.AllocFlags = func(t types.Type) []int {
+		n, ok := t.(*types.Named)
+		if !ok || n.Obj().Pkg() == nil || n.Obj().Pkg().Path() != endorsePkg || n.Obj().Name() == "Context" {
+			return nil
+		}
+		st, ok := n.Underlying().(*types.Struct)
+		if !ok {
+			return nil
+		}
+		for i := 0; i < st.NumFields(); i++ {
+			if namedIs(st.Field(i).Type(), endorsePkg, "ChangeOps") {
+				return []int{idx}
+			}
+		}
+		return nil
+	}
+}
